@@ -246,10 +246,21 @@ def interp_cff_compile(case):
     srcs = [absfont.abs_glyphset({g.name: g for g in s.font}) for s in ds.sources]
     recs = []
     try:
-        outs = [s.font for s in ufo2ft.compileInterpolatableOTFsFromDS(ds, **kw).sources]
+        if case.get("fn") == "varcff2":
+            # the variable font, instantiated at every master's location, is judged against that master's source
+            import io
+
+            from fontTools.ttLib import TTFont
+            from fontTools.varLib import instancer
+
+            vf = ufo2ft.compileVariableCFF2(ds, **kw)
+            data, _ = project.save_reload(vf)
+            outs = [instancer.instantiateVariableFont(TTFont(io.BytesIO(data)), {"wght": loc}, inplace=False) for loc in locs]
+        else:
+            outs = [s.font for s in ufo2ft.compileInterpolatableOTFsFromDS(ds, **kw).sources]
         err = ""
     except Exception as e:  # noqa
-        outs, err = [None] * nm, type(e).__name__
+        outs, err = [None] * nm, type(e).__name__ + ":" + str(e)[:80]
     for k, (src, otf) in enumerate(zip(srcs, outs)):
         rec = {"tid": f"{case['cid']}-m{k}", "flavor": "cff", "src": src, "master": k, "events": [],
                "opts": {"skip": [], "tolS": _tol_scaled(kwargs.get("roundTolerance")), "inplace": False, "flatten": False,
